@@ -8,7 +8,7 @@
     satisfies [InvS] the refreshing edits re-establish it ([refresh_establishes]). *)
 From Coq Require Import Ascii String List Bool PArith NArith ZArith QArith FMapPositive Permutation Lia.
 From PTBase Require Import Exn PyStr.
-From P Require Import Assoc GeoState GeoEdit GeoStep Inv InvNames InvSimple Sets InvCol InvConn InvDel InvRefresh InvRename.
+From P Require Import Assoc GeoState GeoEdit GeoEdit2 GeoStep Inv InvNames InvSimple Sets InvCol InvConn InvDel InvRefresh InvRename InvCompound.
 Import ListNotations.
 Open Scope list_scope.
 
@@ -29,6 +29,14 @@ Definition preS (g : geo) (o : op) : Prop :=
   | RenCol olds news => ren_cols_ok g (combine olds news) (* new names free; (source as it stands:) renamed columns unconnected *)
   | RenLayer olds news => ren_lays_ok g (combine olds news)
   | SplitCol c n => split_noop g c n
+  (* compound operations: see InvCompound.v; refine / decompose_columns / triangulate_column are modelled and
+     compared with the implementation step by step, but not covered by a preservation theorem *)
+  | Refine _ _ | Triangulate _ | DecomposeCols _ _ _ => False
+  | CopyLayers _ | SnapLayers _ _ | SnapNearest _ | Translate _ _ _ | MoveNodes _ _ => True
+  | RefineLayers _ _ => S3b g                (* (the proof goes through the whole invariant of the rebuilt layers) *)
+  | CheckFix hmiss _ => fx_nbr (fx g) = false /\ conns_ok g hmiss       (* each added connection joins columns sharing a side *)
+  | Reduce names hmiss _ => fx_nbr (fx g) = false /\
+      forall g1, delete_columns g (map (cn g) (filter (fun c => negb (existsb (fun n => match cget g n with Some x => Pos.eqb x c | None => false end) names)) (clist g))) = Ok g1 -> conns_ok g1 hmiss
   end.
 
 Theorem step_invS g o g' : InvS g -> preS g o -> step g o = Ok g' -> InvS g'.
@@ -55,6 +63,15 @@ Proof.
   - eapply set_num_layers_invS; eauto.
   - eapply setup_block_name_index_invS; eauto.
   - eapply setup_block_connection_name_index_invS; eauto.
+  - destruct P. eapply check_fix_invS; eauto.
+  - destruct P. eapply reduce_invS; eauto.
+  - destruct P. - destruct P. - destruct P.
+  - exact (i_s _ (refine_layers_establishes g names factor g' I P H)).
+  - eapply copy_layers_from_invS; eauto.
+  - eapply snap_columns_to_layers_invS; eauto.
+  - eapply snap_columns_to_nearest_layers_invS; eauto.
+  - inversion H; subst. apply translate_invS; exact I.
+  - eapply move_nodes_invS; eauto.
 Qed.
 
 (** ** what an edit needs to keep ALL clauses (derived data included) without a refresh *)
@@ -69,6 +86,11 @@ Definition pre (g : geo) (o : op) : Prop :=
   | DelConn a b => joined_otherwise g (a, b) /\ llist g = []
   | AddLayer _ _ _ _ | DelLayer _ | LayerTops | DefaultSurface => no_dependants g
   | SetSurface _ _ => llist g = []
+  | CopyLayers _ | RefineLayers _ _ | MoveNodes _ _ => True
+  (* kept only up to the clauses named in InvCompound.v (layer counts after a snap; elevations after a translation;
+     neighbour sets after a repair in the source as it stands) *)
+  | CheckFix _ _ | Reduce _ _ _ | SnapLayers _ _ | SnapNearest _ | Translate _ _ _ => False
+  | Refine _ _ | Triangulate _ | DecomposeCols _ _ _ => False
   end.
 
 Theorem step_inv g o g' : Inv g -> pre g o -> step g o = Ok g' -> Inv g'.
@@ -95,6 +117,11 @@ Proof.
   - eapply set_num_layers_inv; eauto.
   - eapply setup_block_name_index_inv; eauto.
   - eapply setup_block_connection_name_index_inv; eauto.
+  - destruct P. - destruct P. - destruct PS. - destruct PS. - destruct PS.
+  - eapply refine_layers_inv; eauto.
+  - eapply copy_layers_from_inv; eauto.
+  - destruct P. - destruct P. - destruct P.
+  - eapply move_nodes_inv; eauto.
 Qed.
 
 (** every edit of the sequence meets its precondition in the state it is applied to *)
@@ -131,8 +158,6 @@ Proof.
 Qed.
 
 (** ** refreshing: identify_neighbours, set_column_num_layers for every column, the two name lists *)
-Fixpoint set_all_num_layers (g : geo) (cs : list id) : res geo :=
-  match cs with [] => Ok g | c :: r => do g1 <- set_column_num_layers g c; set_all_num_layers g1 r end.
 Definition refresh (g : geo) : res geo :=
   do g1 <- set_all_num_layers (identify_neighbours g) (clist g); setup_names g1.
 
